@@ -21,6 +21,15 @@ CHECKS = {
         "covers": ["C02/window-reached"],
         "assumptions": A_COMMON,
     },
+    "C01": {
+        "groups": [{"pkgs": "./x/storage/keeper", "fns": ["VH_C01_*"], "opts": {"j": 1, "w": 14}}],
+        "covers": ["C01/proof-accepted", "C01/proof-rejected"],
+        "conformance_skip": ["C01/proof-accepted"],  # reachable only under the VerifyProof cut, which the native replay cannot apply
+        "bounds": {"provers listed on the file": 2},
+        "assumptions": A_COMMON + A_STORE + A_BANK + ["cut: UnifiedFile.VerifyProof returns an arbitrary boolean in the contract harness (its Merkle verification is a separate kernel)",
+                       "cut: UnifiedFile.ProvenThisBlock (selects a log line only) returns an arbitrary boolean",
+                       "WF (C17): a listed prover has a proof record; ProofInterval > 1"],
+    },
     "C03": {
         "groups": [{"pkgs": "./x/storage/keeper", "fns": ["VH_C03_*"], "opts": {"j": 1, "w": 14}}],
         "covers": ["C03/reward-block-done"],
